@@ -15,6 +15,11 @@ def build(repo, tier):
                     functions=[('generation/src/' + m, '*') for m in MODULES],
                     notes=[f'{nfun} functions scanned, {len(obs)} order / state / nondeterminism sites'])
 
+    spec.level = 'other'
+    spec.coverage_extra = {'explanation': f'{len(obs)} order / state / nondeterminism sites found in {nfun} functions of {len(MODULES)} modules; each is an obligation discharged by a syntactic rule '
+                                          '(order-insensitive consumer, key-less sorted(), builds a set, __hash__) or ASSUMED with a written justification (' + str(len(JUSTIFIED)) + ' sites); '
+                                          'byte identity of real outputs across hash seeds and serialisation orders is a bounded differential run, reported under bounded_standins'}
+
     def standin(tier, seed):
         w, n = determinism_bounded(repo.root, tier, seed)
         viol = []
